@@ -362,6 +362,40 @@ def stack_corpus():
     return out
 
 
+def discount_corpus():
+    """a simplification (constant folding with equal and with different operands, an algebraic rule) whose result is used more than once
+    and has to be shuffled afterwards: the length bound is discounted per simplification and must stay above the shortest program"""
+    bases = []
+    for op in ("ADD", "SUB", "MUL", "AND", "OR", "XOR", "SHL", "LT", "EQ", "DIV", "EXP"):
+        bases += ["PUSH1 0x1 PUSH1 0x3 %s" % op, "PUSH1 0x3 PUSH1 0x1 %s" % op, "PUSH1 0x2 PUSH1 0x2 %s" % op]
+    bases += ["PUSH1 0x0 ADD", "PUSH1 0x1 MUL", "DUP1 XOR", "DUP1 SUB", "PUSH1 0x0 OR", "ISZERO ISZERO ISZERO", "PUSH1 0x1 PUSH1 0x3 ADD PUSH1 0x4 ADD",
+              "PUSH1 0x1 PUSH1 0x3 SUB PUSH1 0x1 PUSH1 0x3 SUB ADD"]
+    tails = ["DUP1 SWAP2", "DUP1 DUP1 SWAP3", "DUP1 SWAP2 SWAP1", "DUP1 DUP3 SWAP2 POP", "DUP1 DUP1 ADD SWAP1", "SWAP1 DUP2 SWAP2"]
+    return ["%s %s" % (b, t) for b in bases for t in tails]
+
+
+def deep_operand_corpus():
+    """operations whose operands sit at (or depend on) the deepest reachable cells: every operation with two or three operands applied to
+    words at depths 14..16, in both operand orders, directly and under another operation; stores and loads at those depths"""
+    out = []
+    for k in (13, 14, 15, 16):
+        for op in BIN:
+            out.append("DUP%d %s" % (k, op))
+            out.append("DUP%d SWAP1 %s" % (k, op))
+            out.append("DUP%d DUP3 ADD %s" % (k, op))
+            out.append("DUP%d DUP%d %s" % (k, k, op))
+        for op in TER:
+            out.append("DUP%d %s" % (k, op))
+            out.append("DUP%d SWAP2 %s" % (k, op))
+        for st in ("MSTORE", "SSTORE", "MSTORE8"):
+            out.append("DUP%d %s" % (k, st))
+            out.append("DUP%d SWAP1 %s" % (k, st))
+        out.append("DUP%d MLOAD" % k)
+        out.append("SWAP%d SUB" % k)
+        out.append("SWAP%d SWAP1 DIV" % k)
+    return out
+
+
 def mem_pair_corpus():
     """every ordered pair of memory accesses (word store, byte store, load, hash) at constant offsets around
     word boundaries, and at symbolic base + constant; the second access is followed by a load of each range"""
